@@ -87,6 +87,27 @@ def model_phase(rep, tier):
     rep.notes["negative_controls"] = neg
 
 
+def apalache_phase(rep):
+    """Unbounded safety of the commit counter: an inductive invariant discharged by Apalache (thorough tier)."""
+    import shutil
+    import subprocess
+    obligations = [("Init => IndInv", "--init=Init --inv=IndInv --length=0"),
+                   ("IndInv /\\ Next => IndInv'", "--init=IndInit --inv=IndInv --length=1"),
+                   ("IndInv => BufferedBounded", "--init=IndInit --inv=BufferedBounded --length=0")]
+    out_dir = common.scratch_dir("apalache")
+    done = []
+    for name, args in obligations:
+        p = subprocess.run("apalache-mc check %s --out-dir=%s MC_AwDurableInd.tla" % (args, out_dir), shell=True, cwd=tlc.SPEC_DIR,
+                           stdout=subprocess.PIPE, stderr=subprocess.STDOUT, text=True, timeout=1200)
+        ok = "The outcome is: NoError" in p.stdout
+        done.append({"obligation": name, "discharged": ok})
+        if not ok:
+            raise tlc.TLCFailure("Apalache did not discharge '%s':\n%s" % (name, p.stdout[-1500:]))
+    shutil.rmtree(out_dir, ignore_errors=True)
+    rep.notes["apalache_inductive_invariant"] = {"module": "spec/MC_AwDurableInd.tla", "obligations": done,
+                                                  "meaning": "counter = issued - durable, 0 <= counter <= 50, hence at most 50 buffered writes at any operation boundary, for unbounded bulk sizes, clock values and history lengths"}
+
+
 def gen_histories(tier, seed, rnd):
     from .. import durable
     nsim, nrand = (60, 90) if tier == "quick" else (1200, 2500)
@@ -127,6 +148,8 @@ def run(prop, tier, seed, replay=None):
     rnd = random.Random(seed)
     if replay is None:
         model_phase(rep, tier)
+        if tier == "thorough" and prop == "C06":
+            apalache_phase(rep)
         hist, ngen, nrand = gen_histories(tier, seed, rnd)
         rep.notes.update(tlc_generated_histories=ngen, random_histories=nrand)
         backends = ("sqlite", "peewee")
